@@ -8,6 +8,7 @@ package mtproto
 import (
 	"context"
 	"crypto/rsa"
+	"encoding/binary"
 	"io"
 	"reflect"
 	"sync"
@@ -162,6 +163,8 @@ func (m *MTProto) CreateConnection() error {
 }
 
 const defaultTimeout = 65 * time.Second // 60 seconds is maximum timeouts without pings
+
+const maxGzipNesting = 4 // how many times message can be wrapped into gzip_packed
 
 func (m *MTProto) connect(ctx context.Context) error {
 	var err error
@@ -325,10 +328,28 @@ func (m *MTProto) readMsg() error {
 func (m *MTProto) processResponse(msg messages.Common) error {
 	var data tl.Object
 	var err error
-	if et, ok := m.expectedTypes.Get(msg.GetMsgID()); ok && len(et) > 0 {
-		data, err = tl.DecodeUnknownObject(msg.GetMsg(), et...)
+
+	// message can be packed (even few times), unpacking it to find out, which request it answers on
+	body := msg.GetMsg()
+	for i := 0; i < maxGzipNesting; i++ {
+		unpacked, wasPacked := objects.UnpackGzip(body)
+		if !wasPacked {
+			break
+		}
+		body = unpacked
+	}
+
+	// hints for decoder are stored under id of REQUEST: rpc_result#f35c6d01 req_msg_id:long result:Object
+	var et []reflect.Type
+	if len(body) >= tl.WordLen+tl.LongLen && binary.LittleEndian.Uint32(body) == objects.CrcRpcResult {
+		reqMsgID := int64(binary.LittleEndian.Uint64(body[tl.WordLen:]))
+		et, _ = m.expectedTypes.Get(int(reqMsgID))
+	}
+
+	if len(et) > 0 {
+		data, err = tl.DecodeUnknownObject(body, et...)
 	} else {
-		data, err = tl.DecodeUnknownObject(msg.GetMsg())
+		data, err = tl.DecodeUnknownObject(body)
 	}
 	if err != nil {
 		return errors.Wrap(err, "unmarshaling response")
